@@ -192,6 +192,26 @@ pub fn run(ctx: &mut RunCtx) {
         },
         |c: &Case, obs: &mut Obs| test(c, obs, &excl, skip_stray),
     );
+    // long logs: the base log is hundreds of KiB (reader buffers, block boundaries) with record
+    // sizes that vary from case to case, so that record headers fall on every alignment
+    let lcases = ctx.tier.pick(160, 3000);
+    ctx.explore(
+        "long-logs",
+        "base log of 30-90 transactions, each creating a node with a string property of a generated length (100-3000 bytes), i.e. 60-250 KiB of log with record headers at varying offsets (also straddling 64 KiB boundaries); one generated tail; same oracle; non-trivial as in `tails`",
+        lcases,
+        || {
+            (30usize..90, 100usize..3000, any::<u16>(), tail_strategy(), any::<bool>()).prop_map(|(n, len, jitter, tail, close)| {
+                let base: Vec<Op> = (0..n)
+                    .map(|i| {
+                        let l = len + (i * (jitter as usize % 97 + 1)) % 701;
+                        Op::Tx { ws: vec![hist::W::CreateNode { labels: vec![(i % 3) as u8] }, hist::W::SetNodeProp { n: u16::MAX, k: 0, v: crate::pv::PV::Str("x".repeat(l)) }], commit: true }
+                    })
+                    .collect();
+                Case { base, close, tail, after: vec![Op::Tx { ws: vec![hist::W::CreateNode { labels: vec![1] }], commit: true }] }
+            })
+        },
+        |c: &Case, obs: &mut Obs| test(c, obs, &excl, skip_stray),
+    );
     // exhaustive truncation of one well-formed uncommitted transaction
     let fixed: Vec<Case> = {
         let full = tail_bytes(&Tail::Uncommitted { nodes: 2, keep: u16::MAX });
